@@ -757,7 +757,13 @@ def locksets(fn, entry=frozenset()):
                 S = frozenset(x for x in S if x[0] != lid)
         return S
     init = frozenset((l, 'entry') for l in entry)
-    _, ev_in = forward(fn, init, tr, lambda a, b: a & b)
+
+    def join(a, b):
+        if a == b:
+            return a
+        da, db = dict(a), dict(b)
+        return frozenset((l, da[l] if da[l] == db[l] else 'several') for l in da if l in db)
+    _, ev_in = forward(fn, init, tr, join)
     return ev_in
 
 
